@@ -40,7 +40,9 @@ type proxyConn struct {
 	brw    *bufio.ReadWriter
 	conn   net.Conn
 	secure bool
-	cs     tls.ConnectionState
+	// mitm is set once the connection carries an intercepted TLS session.
+	mitm bool
+	cs   tls.ConnectionState
 }
 
 func newProxyConn(p *Proxy, conn net.Conn) *proxyConn {
@@ -213,6 +215,7 @@ func (p *proxyConn) handleMITM(req *http.Request) error {
 
 		p.conn = tlsconn
 		p.secure = true
+		p.mitm = true
 		p.cs = cs
 
 		return nil
@@ -338,6 +341,11 @@ func (p *proxyConn) handle() error {
 
 	ctx := req.Context()
 
+	// Requests read from an intercepted TLS session are https requests, whatever
+	// X-Forwarded-Proto the client supplies: they must not leave in clear text.
+	if p.mitm && req.URL.Scheme == "" {
+		req.URL.Scheme = "https"
+	}
 	p.fixRequestScheme(req)
 
 	reqUpType := upgradeType(req.Header)
